@@ -39,6 +39,9 @@ ASSUMPTIONS = ["the yaml.v3 node tree of a text (kind, resolved tag, value, comm
                "inside that collection and drops the trailing line feed of a comment separated from its node by a blank line; "
                "documents with such a comment (Corr/C12.v unstable_trivia, counted in the distribution) are judged by the tree "
                "without foot comments plus the sequence of all comments and scalars in textual order, instead of node-by-node",
+               "control run: every document is also parsed, emitted (indent 2, as eval/crypt.go does) and parsed by yaml.v3 "
+               "ALONE; inside the unstable class a document whose control tree already fails that weak projection against the "
+               "input (yaml.v3 moves a paragraph across a scalar or drops it on re-reading) is judged without its comments",
                "valid document (for the clause 'the rewrite of a valid document succeeds') = eval.LoadYAMLBytes reports no "
                "diagnostic for the input and, for decryption, every ciphertext is an envelope the case's decrypter opens"]
 TRUSTED = ["Python YAML renderer (lib/verif/props/cryptgen.py) only shapes inputs: the input tree is read back with "
@@ -370,8 +373,8 @@ def line(c, o):
             # a panic outside the rewrite itself (yaml.v3 or the loader on the input): treated like a dead process
             return crash_followup(c, o)
         return None          # the text is not one YAML document for yaml.v3: nothing to rewrite
-    return "(c12 %s %d %d %d %s %s)" % ("t" if c["op"] == "enc" else "f", c["key"], c["pad"], o.get("in_diags", 0),
-                                        tree_sx(o["in"]), outcome_sx(o))
+    return "(c12 %s %d %d %d %s %s %s)" % ("t" if c["op"] == "enc" else "f", c["key"], c["pad"], o.get("in_diags", 0),
+                                           tree_sx(o["in"]), outcome_sx(o), tree_sx(o["ctl"]) if "ctl" in o else "none")
 
 
 def shrink(c):
@@ -416,6 +419,7 @@ def distribution(cases, r):
     esc = {"ESCAPE:skipped:not-one-yaml-document": 0, "ESCAPE:skipped:loader-dies-on-input": 0,
            "ESCAPE:outside:not-in-accepted-subset(correspondence+crash only)": 0,
            "ESCAPE:outside:foot-comments-yaml.v3-reattaches(weak projection)": 0,
+           "ESCAPE:upper-bound:weak-class-and-yaml.v3-alone-moves-a-comment(trivia unjudged only if the control fails the weak projection)": 0,
            "ESCAPE:excused:known-C12-interp": len(r.get("spec_fail_known", [])),
            "JUDGED:fatal-crash-or-hang-as-failure": 0}
     lines = r.get("lines", {})
@@ -438,6 +442,8 @@ def distribution(cases, r):
                 esc["ESCAPE:outside:not-in-accepted-subset(correspondence+crash only)"] += 1
             elif py_unstable_trivia(o["in"]):
                 esc["ESCAPE:outside:foot-comments-yaml.v3-reattaches(weak projection)"] += 1
+                if "ctl" in o and o["ctl"] != o["in"]:
+                    esc["ESCAPE:upper-bound:weak-class-and-yaml.v3-alone-moves-a-comment(trivia unjudged only if the control fails the weak projection)"] += 1
         k = "%s:%s:%s" % (c.get("fam", ""), c["op"], k)
         d[k] = d.get(k, 0) + 1
     d.update(esc)
